@@ -41,6 +41,32 @@ def tiny_base_points(rng, case):
     case['args'][0]['v'] = x
 
 
+def layout_fails(case):
+    """the value of a public operation depends on the values of its arguments only, not on their memory layout:
+    the same data handed over Fortran-ordered (what A.T gives) or as a strided view gives the same result"""
+    from props.c14 import relayout
+    st, out = ops.call(case)
+    if st != 'ok':
+        return None
+    for layout in ('F', 'strided'):
+        args = ops.build_args(case)
+        args = [UTPM(relayout(a.data, layout)) if isinstance(a, UTPM) and a.data.ndim >= 3 else
+                (relayout(a, layout) if isinstance(a, np.ndarray) else a) for a in args]
+        st2, out2 = ops.call(case, args)
+        if st2 != 'ok':
+            return 'layout-exception-%s: raises %s for %s-layout arguments, not for C-ordered ones' % (case['op'], out2, layout)
+        if len(out) != len(out2):
+            return 'layout-arity-%s' % case['op']
+        for i, (a, b) in enumerate(zip(out, out2)):
+            if isinstance(a, np.ndarray) and isinstance(b, np.ndarray):
+                if a.shape != b.shape:
+                    return 'layout-shape-%s: output %d has shape %s for %s-layout arguments, %s for C-ordered ones' % (case['op'], i, b.shape, layout, a.shape)
+                if np.all(np.isfinite(a)) and not close(a, b, tol=1e-9):
+                    return 'layout-value-%s: output %d differs between %s-layout and C-ordered arguments holding the same values (max diff %s)' % (
+                        case['op'], i, layout, maxdiff(a, b))
+    return None
+
+
 def zeroth_fails(case):
     o = ops.OPS[case['op']]
     if o['ref'] is None:
@@ -221,7 +247,7 @@ def replay_case(ctx, case):
         return None
     if 'fn' in case:
         return c01.run_case(ctx, case)
-    return zeroth_fails(case) or traced_fails(case)
+    return zeroth_fails(case) or traced_fails(case) or layout_fails(case)
 
 
 def run(ctx):
@@ -242,7 +268,8 @@ def run(ctx):
                 ctx.nontrivial += 1
         if len(ctx.samples) < 3 and ops.nontrivial(case):
             ctx.samples.append(to_jsonable(case))
-        f = zeroth_fails(case) or (traced_fails(case) if not case['op'].startswith('ibin') else None)
+        f = zeroth_fails(case) or (traced_fails(case) if not case['op'].startswith('ibin') else None) or (
+            layout_fails(case) if not case['op'].startswith('ibin') else None)
         if f:
             ctx.report(case, 'failure', f)
     for i in range(150 if ctx.tier == 'quick' else 2000):
